@@ -11,7 +11,7 @@ import chython.periodictable as PT
 ID = 'C18'
 RULE = ('exhaustive: 118 elements x every tabulated isotope x charge -4..+4 x radical flag x H 0-6/unknown; per element '
         'the stated consistency relations are executed on the real accessors; pack/unpack and matcher encodings run on '
-        'the .pyx sources under pyxsan, isotope bits inside 46..62 and the observed four words of all states of an element pairwise distinct; the four words of one-atom queries accept the words of atoms (the .pyx atom test) exactly when the reference comparison does, over isotope x charge x radical on both sides; query and dynamic variants report the element's symbol; a case = one (element, isotope|None, charge, radical, H) state, non-trivial = '
+        'the .pyx sources under pyxsan, isotope bits inside 46..62 and the observed four words of all states of an element pairwise distinct; the four words of one-atom queries accept the words of atoms (the .pyx atom test) exactly when the reference comparison does, over isotope x charge x radical on both sides; query and dynamic variants report the symbol of the element; a case = one (element, isotope|None, charge, radical, H) state, non-trivial = '
         'isotope set or charge != 0 or radical, distinct by that tuple')
 ASSUMPTIONS = ['CachedMethods compatibility shim', 'embedded IUPAC symbol table cross-checked with RDKit',
                'pack/unpack/matcher clauses observe the .pyx source semantics under pyxsan, not a compiled binary']
